@@ -27,8 +27,8 @@ type FSFault struct {
 // itself right before the At-th file-system call of the request (the world is
 // serialised, so this is "between two steps" for every other task too).
 type FSMutation struct {
-	At int
-	Do func()
+	At   int
+	Do   func()
 	What string
 }
 
